@@ -113,13 +113,17 @@ func c12Waits(p *Prog, r *Report, conds []condInfoT) {
 		}
 		sort.Slice(methods, func(i, j int) bool { return methods[i].Key < methods[j].Key })
 		predFields := map[*types.Var]bool{}
+		shrinkWaited := map[*types.Var]bool{} // fields some waiter waits on to shrink (every mutation must notify)
 		// C12.a and predicate discovery
 		for _, fi := range methods {
 			info := fi.Pkg.TypesInfo
-			f := p.FlatOf(fi)
+			f := p.FlatInl(fi)
 			for _, n := range f.Nodes {
 				if n.Ast == nil {
 					continue
+				}
+				if _, spliced := f.Inl[n.ID]; spliced {
+					continue // a Wait inside a helper is counted in the helper's own method
 				}
 				for _, c := range callsIn(n.Ast, false) {
 					sel, ok := c.Fun.(*ast.SelectorExpr)
@@ -137,6 +141,54 @@ func c12Waits(p *Prog, r *Report, conds []condInfoT) {
 					condOnCycle := false
 					if inLoop {
 						for id := range seen {
+							if back := f.Reach(f.succsOf(id), nil, nil); back[n.ID] && f.Nodes[id].Ast != nil {
+								// every field read on the wait cycle can be part of the predicate (it may be read through a
+								// helper and tested through a local: err = rw.checkErr(); if err != nil ...)
+								ast.Inspect(f.Nodes[id].Ast, func(x ast.Node) bool {
+									if _, isLit := x.(*ast.FuncLit); isLit {
+										return false
+									}
+									if s, ok := x.(*ast.SelectorExpr); ok {
+										if fv, ok := info.Uses[s.Sel].(*types.Var); ok && fv.IsField() && fv != ci.condField && !isSyncPrimitive(fv.Type()) {
+											if rt := fi.Sig().Recv().Type(); fieldOfType(rt, fv) {
+												predFields[fv] = true
+											}
+										}
+									}
+									return true
+								})
+								// a test of <field>.Len() against a non-zero bound waits for the buffer to shrink
+								if f.Nodes[id].IsCond {
+									ast.Inspect(f.Nodes[id].Ast, func(x ast.Node) bool {
+										be, ok := x.(*ast.BinaryExpr)
+										if !ok {
+											return true
+										}
+										for _, pair := range [][2]ast.Expr{{be.X, be.Y}, {be.Y, be.X}} {
+											lc, ok := ast.Unparen(pair[0]).(*ast.CallExpr)
+											if !ok {
+												continue
+											}
+											ls, ok := lc.Fun.(*ast.SelectorExpr)
+											if !ok || ls.Sel.Name != "Len" {
+												continue
+											}
+											inner, ok := ast.Unparen(ls.X).(*ast.SelectorExpr)
+											if !ok {
+												continue
+											}
+											fv, ok := info.Uses[inner.Sel].(*types.Var)
+											if !ok {
+												continue
+											}
+											if v, isC := constInt(info, pair[1]); !isC || v != 0 {
+												shrinkWaited[fv] = true
+											}
+										}
+										return true
+									})
+								}
+							}
 							if f.Nodes[id].IsCond {
 								back := f.Reach(f.succsOf(id), nil, nil)
 								if back[n.ID] {
@@ -191,6 +243,45 @@ func c12Waits(p *Prog, r *Report, conds []condInfoT) {
 		for _, fi := range methods {
 			info := fi.Pkg.TypesInfo
 			lr := p.LockFlow(fi, nil)
+			// plain assignments to a predicate field (x.err = e)
+			for _, n := range p.FlatOf(fi).Nodes {
+				as, ok := n.Ast.(*ast.AssignStmt)
+				if !ok {
+					continue
+				}
+				for _, l := range as.Lhs {
+					ls, ok := ast.Unparen(l).(*ast.SelectorExpr)
+					if !ok {
+						continue
+					}
+					fv, ok := info.Uses[ls.Sel].(*types.Var)
+					if !ok || !predFields[fv] {
+						continue
+					}
+					rn := ""
+					if len(fi.Decl.Recv.List[0].Names) == 1 {
+						rn = fi.Decl.Recv.List[0].Names[0].Name
+					}
+					lp := rn + "." + ci.lockField
+					var hs []Held
+					found := false
+					for _, ev := range lr.Events {
+						if ev.Kind == "fieldwrite" && ev.Field == fv && ev.Node != nil && as.Pos() <= ev.Node.Pos() && ev.Node.End() <= as.End() {
+							hs, found = ev.Held, true
+						}
+					}
+					cons := fmt.Sprintf("%s#%s=", fi.Key, fv.Name())
+					r.Check(found && holdsMode(hs, lp, "W"), "C12.b", cons+"/under-lock", p.pos(as), "assignment of wait-predicate field "+fv.Name()+" under "+lp,
+						fmt.Sprintf("wait-predicate field %s is assigned without %s (held %s): the change can fall between a waiter's test and its Wait, the wake-up is lost and the waiter sleeps forever", fv.Name(), lp, heldString(hs)))
+					okN := false
+					if c := firstCallIn(as); c != nil {
+						okN = notifiedAfter(p, fi, c)
+					} else {
+						okN = notifiedAfterNode(p, fi, as)
+					}
+					r.Check(okN, "C12.b", cons+"/notifies", p.pos(as), "followed by Signal/Broadcast on every path", "an assignment that can satisfy a waiter's predicate is not followed by Signal/Broadcast on every path: a goroutine parked in Wait is never woken")
+				}
+			}
 			recvName := ""
 			if len(fi.Decl.Recv.List[0].Names) == 1 {
 				recvName = fi.Decl.Recv.List[0].Names[0].Name
@@ -218,7 +309,7 @@ func c12Waits(p *Prog, r *Report, conds []condInfoT) {
 				cons := fmt.Sprintf("%s#%s.%s", fi.Key, fv.Name(), sel.Sel.Name)
 				r.Check(holdsMode(hs, lockPath, "W"), "C12.b", cons+"/under-lock", p.pos(ev.Call), "mutation of wait-predicate field "+fv.Name()+" under "+lockPath,
 					fmt.Sprintf("wait-predicate field %s is changed without %s (held %s): the change can fall between the waiter's test and its Wait, the wake-up is lost and Close blocks forever", fv.Name(), lockPath, heldString(hs)))
-				if growingMethods[sel.Sel.Name] {
+				if growingMethods[sel.Sel.Name] || shrinkWaited[fv] {
 					// notification follows: in this method, or - when the mutation sits in an unexported helper - after
 					// every call of the helper in the methods of the type
 					ok := notifiedAfter(p, fi, ev.Call)
@@ -248,9 +339,52 @@ func c12Waits(p *Prog, r *Report, conds []condInfoT) {
 	r.Floor("C12.a", "cond-wait-sites", nWait, 1)
 }
 
+func isSyncPrimitive(t types.Type) bool {
+	if pt, ok := t.(*types.Pointer); ok {
+		t = pt.Elem()
+	}
+	s := t.String()
+	return s == "sync.Mutex" || s == "sync.RWMutex" || s == "sync.Cond" || s == "sync.WaitGroup" || s == "sync.Once"
+}
+
+func fieldOfType(t types.Type, fv *types.Var) bool {
+	if pt, ok := t.(*types.Pointer); ok {
+		t = pt.Elem()
+	}
+	st, ok := t.Underlying().(*types.Struct)
+	if !ok {
+		return false
+	}
+	for i := 0; i < st.NumFields(); i++ {
+		if st.Field(i) == fv {
+			return true
+		}
+	}
+	return false
+}
+
 // notifiedAfter reports whether every path of fi from the statement containing call to an exit passes a
 // sync.Cond Signal/Broadcast (or such a call was deferred before the statement).
+func firstCallIn(n ast.Node) *ast.CallExpr {
+	var res *ast.CallExpr
+	ast.Inspect(n, func(x ast.Node) bool {
+		if c, ok := x.(*ast.CallExpr); ok && res == nil {
+			res = c
+		}
+		return res == nil
+	})
+	return res
+}
+
+func notifiedAfterNode(p *Prog, fi *FuncInfo, at ast.Node) bool {
+	return notifiedAfterPos(p, fi, at)
+}
+
 func notifiedAfter(p *Prog, fi *FuncInfo, call *ast.CallExpr) bool {
+	return notifiedAfterPos(p, fi, call)
+}
+
+func notifiedAfterPos(p *Prog, fi *FuncInfo, call ast.Node) bool {
 	info := fi.Pkg.TypesInfo
 	f := p.FlatOf(fi)
 	var wnode int = -1
@@ -408,6 +542,11 @@ func c12WaitGroup(p *Prog, r *Report) {
 	cinfo := cf.Pkg.TypesInfo
 	ff := p.FlatOf(cf)
 	waits := ff.Match(func(n *GNode) bool {
+		switch n.Ast.(type) {
+		case *ast.DeferStmt, *ast.GoStmt:
+			// a deferred Wait runs after the return value has been evaluated: it does not order the read of the error
+			return false
+		}
 		for _, c := range callsIn(n.Ast, false) {
 			if sel, ok := c.Fun.(*ast.SelectorExpr); ok && sel.Sel.Name == "Wait" {
 				if fn, ok := cinfo.Uses[sel.Sel].(*types.Func); ok && fkey(fn) == "(*sync.WaitGroup).Wait" {
